@@ -821,30 +821,54 @@ theorem closed_of_closedFrom (ns : List Node) (h : closedFrom 0 ns = true) : Clo
     and `GetSlice`, to cancel B2A∘A2B, and the nodes it creates get re-inferred types — hence the
     four typing laws.  (Earlier versions of this file used two observations `one` / `stOf`; they
     cannot express the type of a created `GetSlice` node, which the pass reads again when vectors
-    of arrays are nested.) -/
-structure MetaLaws (sem : Op → List V → V) (tyv : V → Ty) : Prop where
+    of arrays are nested.)
+
+    `ok v` = "the evaluation that produced `v` succeeded".  Every equation is only demanded when
+    its left-hand side — the value of the node the pass replaces — is `ok`: for a strict partial
+    semantics (ciphercore's evaluator: type errors, index out of range) the unconditional equations
+    are false (e.g. `A2B(B2A_st x) = x` for an `x` that is not a bit array), see
+    `Lemmas/OptimizerEval.lean`.  With `ok := fun _ => True` these are the unconditional laws.
+    `ok_createTuple`: strictness of CreateTuple (needed for the components of a resolved Zip).
+    `b2a_a2b` also demands that `x` itself (the value of a node of the result graph) is `ok`: for
+    the evaluator model `ok` includes "has a valid type", and the law is false for a value of the
+    invalid type `array [] st` whose summary `arr 0 st` is that of a scalar. -/
+structure MetaLaws (ok : V → Prop) (sem : Op → List V → V) (tyv : V → Ty) : Prop where
   tupleGet : ∀ (vs : List V) (j : Nat) (h : j < vs.length),
+    ok (sem (.tupleGet j) [sem .createTuple vs]) →
     sem (.tupleGet j) [sem .createTuple vs] = vs[j]
   namedGet : ∀ (names : List Nat) (vs : List V) (j : Nat) (h : j < vs.length), names.length = vs.length →
-    names.Nodup → sem (.namedTupleGet names[j]!) [sem (.createNamedTuple names) vs] = vs[j]
+    names.Nodup → ok (sem (.namedTupleGet names[j]!) [sem (.createNamedTuple names) vs]) →
+    sem (.namedTupleGet names[j]!) [sem (.createNamedTuple names) vs] = vs[j]
   vectorGet : ∀ (t : Nat) (vs : List V) (vid c : Nat) (h : c < vs.length),
+    ok (sem .vectorGet [sem (.createVector t) vs, sem (.constant vid (some c)) []]) →
     sem .vectorGet [sem (.createVector t) vs, sem (.constant vid (some c)) []] = vs[c]
-  zipGet : ∀ (vs : List V) (i : V),
+  zipGet : ∀ (vs : List V) (i : V), ok (sem .vectorGet [sem .zip vs, i]) →
     sem .vectorGet [sem .zip vs, i] = sem .createTuple (vs.map fun v => sem .vectorGet [v, i])
   a2vGet : ∀ (a : V) (vid c : Nat),
+    ok (sem .vectorGet [sem .arrayToVector [a], sem (.constant vid (some c)) []]) →
     sem .vectorGet [sem .arrayToVector [a], sem (.constant vid (some c)) []] =
       match tyv a with
       | .arr 1 _ => sem (.get c) [a]
       | _ => sem (.getSlice c) [a]
-  a2b_b2a : ∀ (x : V) (st : Nat), sem .a2b [sem (.b2a st) [x]] = x
-  b2a_a2b : ∀ (x : V) (nd st : Nat), tyv x = .arr nd st → sem (.b2a st) [sem .a2b [x]] = x
-  ty_get : ∀ (a : V) (c st : Nat), tyv a = .arr 1 st → tyv (sem (.get c) [a]) = .arr 0 st
-  ty_getSlice : ∀ (a : V) (c : Nat), tyv (sem (.getSlice c) [a]) =
+  a2b_b2a : ∀ (x : V) (st : Nat), ok (sem .a2b [sem (.b2a st) [x]]) →
+    sem .a2b [sem (.b2a st) [x]] = x
+  b2a_a2b : ∀ (x : V) (nd st : Nat), tyv x = .arr nd st → ok x → ok (sem (.b2a st) [sem .a2b [x]]) →
+    sem (.b2a st) [sem .a2b [x]] = x
+  ty_get : ∀ (a : V) (c st : Nat), tyv a = .arr 1 st → ok (sem (.get c) [a]) →
+    tyv (sem (.get c) [a]) = .arr 0 st
+  ty_getSlice : ∀ (a : V) (c : Nat), ok (sem (.getSlice c) [a]) → tyv (sem (.getSlice c) [a]) =
       match tyv a with
       | .arr nd st => .arr (nd - 1) st
       | _ => .other
-  ty_vectorGet : ∀ (v i : V) (e : Ty), tyv v = .vec e → tyv (sem .vectorGet [v, i]) = e
+  ty_vectorGet : ∀ (v i : V) (e : Ty), tyv v = .vec e → ok (sem .vectorGet [v, i]) →
+    tyv (sem .vectorGet [v, i]) = e
   ty_createTuple : ∀ (vs : List V), tyv (sem .createTuple vs) = .other
+  ok_createTuple : ∀ (vs : List V), ok (sem .createTuple vs) → ∀ v ∈ vs, ok v
+
+/-- every node of the graph evaluates successfully -/
+def ValOK (ok : V → Prop) (sem : Op → List V → V) (inp : Nat → V) (dv : V) (rnd : Nat → List V → V)
+    (ns : List Node) : Prop :=
+  ∀ i, i < ns.length → ok ((eval sem inp dv rnd ns).getD i dv)
 
 /-- the recorded type summaries describe the values (the meta pass reads them for A2B/B2A and Get) -/
 def TyOK (sem : Op → List V → V) (inp : Nat → V) (dv : V) (rnd : Nat → List V → V)
